@@ -160,3 +160,179 @@ def snapshot(v):
     if isinstance(v, (ak.Array, ak.Record)):
         return ("awkward", type(v).__name__, str(ak.type(v)), repr(ak.to_list(v)), tuple(sorted(map(str, (v.behavior or {}).keys())))[:3], str(v.layout.form) if hasattr(v.layout, "form") else "")
     return ("scalar", repr(v))
+
+
+# ---------------------------------------------------------------- C03 / C16 runner
+def run_agreement(ctx, seed, deep, values=True, snapshots=True, prop="C03"):
+    """every catalogued operation on NumPy arrays (1-D, 2-D), Awkward arrays (flat, jagged) and mixed pairings:
+    values equal the object backend element by element (values=True); no operand is modified (snapshots=True)"""
+    import awkward as ak
+    import vector
+    n = 0
+    distinct = set()
+    samples = []
+    with numpy.errstate(all="ignore"):
+        for dim in (2, 3, 4):
+            for si, names in enumerate(H.SYS[dim]):
+                if not deep and (si + seed) % 2 != 0 and dim == 4:
+                    continue
+                for mom in (False, True):
+                    if not deep and mom and si % 2:
+                        continue
+                    sysn = H.sysname(names)
+                    rng = H.rng_for(seed, prop, names, mom)
+                    pts = [point(rng, names, dim) for _ in range(4)]
+                    objs = [H.obj(vector, names, p, momentum=mom) for p in pts]
+                    keyn = [H.MOM.get(k, k) if mom else k for k in names]
+
+                    def mk_np(shape=None):
+                        a = vector.array({kn: numpy.array([p[nm] for p in pts]) for nm, kn in zip(names, keyn)})
+                        return a if shape is None else a.reshape(shape)
+
+                    def mk_ak(jag=False):
+                        recs = [rec(names, p, mom) for p in pts]
+                        return vector.Array(ak.Array([recs[:1], [], recs[1:]] if jag else recs))
+                    containers = {"numpy1d": (lambda: mk_np(), lambda r: [r[i] for i in range(4)]),
+                                  "numpy2d": (lambda: mk_np((2, 2)), lambda r: [r[i // 2, i % 2] for i in range(4)]),
+                                  "awkward": (lambda: mk_ak(), lambda r: [r[i] for i in range(4)]),
+                                  "jagged": (lambda: mk_ak(True), lambda r: list(ak.flatten(r, axis=1)) if r.ndim > 1 else [r[i] for i in range(len(r))])}
+
+                    def leaf_of(x):
+                        if isinstance(x, vector._methods.Vector):
+                            return {f: float(getattr(x, f)) for f in vec_fields(x)}
+                        if isinstance(x, (bool, numpy.bool_)):
+                            return bool(x)
+                        return float(x)
+
+                    def check(site, op_name, got_elems, want_objs, inp):
+                        if not values:
+                            return
+                        for i, (g, w) in enumerate(zip(got_elems, want_objs)):
+                            lw = leaf_value(w)
+                            try:
+                                lg = leaf_of(g)
+                            except Exception as e:
+                                ctx.fail(site, f"element {i}: cannot read result ({type(e).__name__}: {e})"[:200], inp)
+                                return
+                            if not close(lg, lw):
+                                ctx.fail(site, f"element {i}: {lg}, object backend {lw}", inp)
+                                return
+
+                    for cname, (mk, elems) in containers.items():
+                        site0 = f"{cname}:{dim}D:{sysn}:{'momentum' if mom else 'generic'}"
+                        # getters
+                        for g in GETTERS[dim]:
+                            n += 1
+                            distinct.add((cname, g, sysn, mom))
+                            a = mk()
+                            before = snapshot(a)
+                            try:
+                                r = getattr(a, g)
+                            except Exception as e:
+                                ctx.fail(f"{site0}:{g}", f"raises {type(e).__name__}: {e}"[:200], {"points": pts})
+                                continue
+                            if snapshots and snapshot(a) != before:
+                                ctx.fail(f"{site0}:{g}:operand_modified", f"reading .{g} changed the operand", {"points": pts})
+                            rr = numpy.asarray(r).reshape(-1).tolist() if cname.startswith("numpy") else ak.to_list(ak.flatten(r, axis=None))
+                            check(f"{site0}:{g}", g, rr, [getattr(o, g) for o in objs], {"points": pts})
+                        # unary methods (+ scalar argument given as an array: broadcast element by element)
+                        for nm, (mind, f) in UNARY.items():
+                            if mind > dim:
+                                continue
+                            n += 1
+                            distinct.add((cname, nm, sysn, mom))
+                            a = mk()
+                            before = snapshot(a)
+                            try:
+                                r = f(a)
+                            except Exception as e:
+                                ctx.fail(f"{site0}:{nm}", f"raises {type(e).__name__}: {e}"[:200], {"points": pts})
+                                continue
+                            if snapshots and snapshot(a) != before:
+                                ctx.fail(f"{site0}:{nm}:operand_modified", f"{nm} changed its operand", {"points": pts})
+                            try:
+                                got = elems(r) if isinstance(r, (vector._methods.Vector,)) else (numpy.asarray(r).reshape(-1).tolist() if cname.startswith("numpy") else ak.to_list(ak.flatten(r, axis=None)))
+                            except Exception as e:
+                                ctx.fail(f"{site0}:{nm}", f"cannot index the result: {type(e).__name__}: {e}"[:200], {"points": pts})
+                                continue
+                            check(f"{site0}:{nm}", nm, got, [f(o) for o in objs], {"points": pts})
+                        for nm, g_arr, g_obj in (("scale[array]", lambda v, k: v.scale(k), None), ("rotateZ[array]", lambda v, k: v.rotateZ(k), None)):
+                            ks = [0.5, -1.5, 2.0, -0.25]
+                            a = mk()
+                            karr = numpy.array(ks) if cname == "numpy1d" else (numpy.array(ks).reshape(2, 2) if cname == "numpy2d" else (ak.Array(ks) if cname == "awkward" else ak.Array([ks[:1], [], ks[1:]])))
+                            n += 1
+                            before, kb = snapshot(a), (karr.tobytes() if isinstance(karr, numpy.ndarray) else repr(ak.to_list(karr)))
+                            try:
+                                r = g_arr(a, karr)
+                            except Exception as e:
+                                ctx.fail(f"{site0}:{nm}", f"raises {type(e).__name__}: {e}"[:200], {"points": pts})
+                                continue
+                            if snapshots and (snapshot(a) != before or (karr.tobytes() if isinstance(karr, numpy.ndarray) else repr(ak.to_list(karr))) != kb):
+                                ctx.fail(f"{site0}:{nm}:operand_modified", f"{nm} changed an operand", {"points": pts})
+                            check(f"{site0}:{nm}", nm, elems(r), [g_arr(o, k) for o, k in zip(objs, ks)], {"points": pts})
+                    # binary: all pairings of containers (quick: a rotating subset)
+                    pair_kinds = ["object", "numpy1d", "awkward", "jagged", "record"]
+                    for nm, (da, db, f) in BINARY.items():
+                        if (da or dim) != dim:
+                            continue
+                        bd = db or dim
+                        bn = H.SYS[bd][(si + 2) % len(H.SYS[bd])]
+                        role = "beta3" if nm == "boost_beta3" else "vec"
+                        ptsb = [point(rng, bn, bd, role) for _ in range(4)]
+                        objsb = [H.obj(vector, bn, p) for p in ptsb]
+                        for k1 in pair_kinds:
+                            for k2 in pair_kinds:
+                                if k1 in ("object", "record") and k2 in ("object", "record"):
+                                    continue
+                                if k1 == "jagged" and k2 not in ("jagged", "object", "record") or k2 == "jagged" and k1 not in ("jagged", "object", "record"):
+                                    continue
+                                if nm == "rotate_axis" and not (k2 in ("object", "record") or k1 == k2):
+                                    continue   # the axis is a secondary argument: it does not choose the backend of the result
+                                if not deep and (hash((nm, k1, k2, sysn)) + seed) % 4 != 0:
+                                    continue
+                                n += 1
+                                distinct.add((nm, k1, k2, sysn, mom))
+
+                                def build(kind, names_, pts_, mom_):
+                                    keys = [H.MOM.get(k, k) if mom_ else k for k in names_]
+                                    if kind == "object":
+                                        return H.obj(vector, names_, pts_[0], momentum=mom_), [0, 0, 0, 0]
+                                    if kind == "record":
+                                        return vector.Array(ak.Array([rec(names_, pts_[0], mom_)]))[0], [0, 0, 0, 0]
+                                    if kind == "numpy1d":
+                                        return vector.array({kn: numpy.array([p[nm_] for p in pts_]) for nm_, kn in zip(names_, keys)}), [0, 1, 2, 3]
+                                    recs = [rec(names_, p, mom_) for p in pts_]
+                                    return vector.Array(ak.Array([recs[:1], [], recs[1:]] if kind == "jagged" else recs)), [0, 1, 2, 3]
+                                a, ia = build(k1, names, pts, mom)
+                                b, ib = build(k2, bn, ptsb, False)
+                                site = f"{k1}x{k2}:{dim}D:{sysn}|{H.sysname(bn)}:{nm}"
+                                sa, sb = snapshot(a), snapshot(b)
+                                try:
+                                    r = f(a, b)
+                                except Exception as e:
+                                    ctx.fail(site, f"raises {type(e).__name__}: {e}"[:200], {"a": pts, "b": ptsb})
+                                    continue
+                                if snapshots and (snapshot(a) != sa or snapshot(b) != sb):
+                                    ctx.fail(site + ":operand_modified", f"{nm} changed an operand", {"a": pts, "b": ptsb})
+                                if not values:
+                                    continue
+                                want = [f(objs[i], objsb[j]) for i, j in zip(ia, ib)]
+                                try:
+                                    if isinstance(r, ak.Array):
+                                        flat = ak.flatten(r, axis=None) if not isinstance(r, vector._methods.Vector) else (ak.flatten(r, axis=1) if r.ndim > 1 else r)
+                                        got = [flat[i] for i in range(len(flat))]
+                                    elif isinstance(r, numpy.ndarray):
+                                        got = [r[i] for i in range(len(r))] if isinstance(r, vector._methods.Vector) else r.reshape(-1).tolist()
+                                    else:
+                                        got = [r]
+                                        want = want[:1]
+                                except Exception as e:
+                                    ctx.fail(site, f"cannot index the result: {type(e).__name__}: {e}"[:200], {"a": pts, "b": ptsb})
+                                    continue
+                                if len(got) != len(want):
+                                    ctx.fail(site, f"{len(got)} result elements for {len(want)} operand elements", {"a": pts, "b": ptsb})
+                                    continue
+                                check(site, nm, got, want, {"a": pts, "b": ptsb})
+                    if len(samples) < 3 and dim == 3:
+                        samples.append({"system": sysn, "numpy": repr(mk_np().tolist())[:160], "deltaR vs object": float(mk_np().deltaR(objs[0])[1]) if dim >= 3 else None})
+    return {"evaluations": n, "distinct": len(distinct), "samples": samples}
